@@ -37,6 +37,7 @@ def jobs(tier, seed):
     for cfg in ("prj", "dev", "noid", "plain"):
         for mode in (False, True):
             J.append(dict(name="derive_auth_blocks:%s:%s" % (cfg, "cust" if mode else "ecc"), kind="auth", cfg=cfg, cust=mode, timeout=900, cost=100))
+    J.append(dict(name="aliasing:two-files-from-one-list", kind="alias", timeout=900, cost=100))
     J.append(dict(name="set_config:twin", kind="setconfig", n=1, cfg="plain", twin=True, expect="violated", timeout=300))
     return J
 
@@ -125,6 +126,30 @@ def run_job(job):
         res["symbolic_dims"] = 5 * n + 23
         if res["verdict"] == "violated":
             res["signature"] = "C11:two-configurations"
+        return res
+
+    if kind == "alias":
+        def h():
+            # two files built from the same list object, and the caller keeps using the list
+            fw = bf.Bf3Component({0xC3: b"\x02"}, sym.sym_bytes("fw", 3))
+            lst = [fw]
+            a, b = bf.Bf3File({}, lst), bf.Bf3File({}, lst)
+            ca, cb = mk_cfg(sym, "plain", "A"), mk_cfg(sym, "plain", "B")
+            a.set_config(ca)
+            b.set_config(cb)
+            ok = len(lst) == 1 and lst[0] is fw
+            for f_, c_ in ((a, ca), (b, cb)):
+                ok = ok and len(f_.components) == 2 and f_.components[0] is fw and f_.components[1].blob == ref_blob(c_)
+            a.set_config(cb)
+            ok = ok and len(a.components) == 2 and a.components[1].blob == ref_blob(cb) and len(b.components) == 2
+            if not ok:
+                runner.record_witness(n=len(lst))
+            return ok
+
+        res = runner.run(h, job["timeout"] - 60, job["timeout"] - 60)
+        res["symbolic_dims"] = 49
+        if res["verdict"] == "violated":
+            res["signature"] = "C11:shared-component-list"
         return res
 
     if kind == "comments":
@@ -220,11 +245,19 @@ def replay(job):
     kind = job["kind"]
     TYPES = [None, b"\x00", b"\x01", b"\x02", b"\x03"]
     cfg = {}
-    for k, v in CFG_SHAPES[job["cfg"]].items():
+    for k, v in CFG_SHAPES[job.get("cfg", "plain")].items():
         cfg[k] = v[1] if isinstance(v, tuple) else bytes([7]) * v
     for k, v in (w.get("cfg") or {}).items():
         if isinstance(v, dict) and "hex" in v:
             cfg[eval(k)] = bytes.fromhex(v["hex"])
+    if kind == "alias":
+        fw = bf.Bf3Component({0xC3: b"\x02"}, b"abc")
+        lst = [fw]
+        a, b = bf.Bf3File({}, lst), bf.Bf3File({}, lst)
+        a.set_config({(0x0100, 0x10): b"AAA"})
+        b.set_config({(0x0100, 0x10): b"BBB"})
+        bad = len(lst) != 1 or len(a.components) != 2 or len(b.components) != 2 or b"AAA" not in a.components[-1].blob
+        return dict(reproduced=bad, signature="C11:shared-component-list", detail="two files built from one list: caller's list now has %d items, file a holds %r" % (len(lst), a.components))
     if kind == "setconfig":
         kinds = w.get("kinds", [])
         f = bf.Bf3File({"Foreign": "x"}, [])
